@@ -467,9 +467,16 @@ def items(tier, seed):
                     if dname not in ("self", fwd, "mcast"):
                         continue
                     ll = (0, 2)
+                elif dname not in ("self", "mcast"):
+                    # only frames for this node / multicasts are parsed beyond the header: the other classes are
+                    # dropped or forwarded whatever their length
+                    if tier == "quick":
+                        ll = (0, 24) if dname.startswith("inv-") else (0, 3, 24)
+                    else:
+                        ll = (0, 1, 2, 3, 8, 24)
                 for lo in range(0, 256, 64):
                     fr.append((role, lvl, "ack", dname, oname, list(range(lo, lo + 64)), ll, seed))
-                if oname == "valid" or tier != "quick":
+                if oname == "valid":
                     st = SILENT_TYPES if tier == "quick" else tuple(range(256))
                     sl = (0, 2, 24) if tier == "quick" else (0, 1, 2, 3, 8, 24)
                     step = 11 if tier == "quick" else 32
@@ -515,8 +522,8 @@ def run(tier, seed, rep, only=None):
              "is_address_valid on all 65 536 values and None. states = distinct injected inputs, transitions = update() executions; "
              "non-trivial = distinct (node, environment, frame class, reaction)."
              % (len(rl), "{0,1,2,3,8,24}" if tier == "quick" else "0..24",
-                "quick: every destination class with a valid origin at all lengths; every other origin class with destinations self / child / 0o100 at lengths 0 and 2; the relay / RF24Mesh-as-node variants on destinations self / child / 0o100 only" if tier == "quick" else "full product",
-                "silent environment on 22 representative types x 3 lengths" if tier == "quick" else "both on all types",
+                "quick: destinations self / 0o100 with a valid origin at all lengths, forwarded destination classes at lengths {0,3,24}, invalid ones at {0,24}; every other origin class with destinations self / child / 0o100 at lengths 0 and 2; the relay / RF24Mesh-as-node variants on destinations self / child / 0o100 only" if tier == "quick" else "full destination x origin product; lengths 0..24 for destinations self / 0o100, {0,1,2,3,8,24} for the classes that are forwarded or dropped unparsed",
+                "silent environment with valid origins on 22 representative types x 3 lengths" if tier == "quick" else "silent environment with valid origins on all types x 6 lengths",
                 len(seq_alphabet(0o32, tier, seed))),
         bounds=dict(nodes=["%s-L%d" % x for x in rl], frame_items=len(fr), raw_items=len(raw), pair_items=len(pairs), lengths=list(lengths(tier)),
                     time_bound="4 x (2 retry cycles + tx_timeout + route_timeout + 10 ms) + 20 ms per received frame"),
